@@ -162,7 +162,7 @@ def unit_case_strategy():
 
 def pipeline_strategy():
     # parameter draws that multiply short segments are over-represented (-sp 2000, small -d, more peaks)
-    return gen_maps.pipeline_case(weight_default=3)
+    return gen_maps.pipeline_case(weight_default=3, flank_repeat=1)
 
 
 @st.composite
